@@ -90,6 +90,8 @@ structure SwapPrePost (m : Mgr) (x : Nat) (ox oy : List Nat) (g xf : List Nat) (
   sched : m'.sched = m.sched
   /-- reference counts: exact before, exact after (same ledger of external references) -/
   refExact : ∀ ext, RefExact m ext → RefExact m' ext
+  /-- the declared names are the same -/
+  names : ∀ v : String, m'.tbl.vars.contains v = m.tbl.vars.contains v
   /-- `garbage` contains the old children of every rebuilt node -/
   garbageAll : ∀ u n, IsDep m.tbl x u → m.tbl.node? u = some n → n.lo.natAbs ∈ g ∧ n.hi.natAbs ∈ g
   /-- every node created by the swap has a parent -/
@@ -156,7 +158,24 @@ theorem swapPre_spec (m : Mgr) (hI : Inv m) (hV : OrderOK m.tbl)
   refine ⟨g, xf, m5, _, hrun, hex, rfl, rfl, hM, ?_⟩
   refine ⟨hI6, hV5.exchange x (x + 1) vx vy hxy hvx5 hvy5, ⟨?_, ?_, hM.frame.roots⟩, ?_, ?_, ?_, hxf, hg,
     hM.frame.lastLen, hM.frame.ctx, hM.frame.sched,
-    fun ext hr => (hR ext hr).congrSucc rfl rfl, hgall, hfp⟩
+    fun ext hr => (hR ext hr).congrSucc rfl rfl, ?_, hgall, hfp⟩
+  rotate_left 5
+  · intro v
+    show ((m5.tbl.vars.insert vx (x + 1)).insert vy x).contains v = m.tbl.vars.contains v
+    rw [TreeMap.contains_insert, TreeMap.contains_insert, hv5]
+    have cx : m.tbl.vars.contains vx = true := by
+      rw [TreeMap.contains_eq_isSome_getElem?, (hV.inv vx x).mpr hvx]; rfl
+    have cy : m.tbl.vars.contains vy = true := by
+      rw [TreeMap.contains_eq_isSome_getElem?, (hV.inv vy (x + 1)).mpr hvy]; rfl
+    by_cases e1 : vy = v
+    · subst e1; simp [cy]
+    · by_cases e2 : vx = v
+      · subst e2; simp [cx]
+      · have a1 : (compare vy v == Ordering.eq) = false := by
+          rw [beq_eq_false_iff_ne]; intro h; exact e1 (compare_eq_iff_eq.mp h)
+        have a2 : (compare vx v == Ordering.eq) = false := by
+          rw [beq_eq_false_iff_ne]; intro h; exact e2 (compare_eq_iff_eq.mp h)
+        rw [a1, a2]; simp
   · intro j
     show (exchangeVars m5.tbl x (x + 1) vx vy).l2v[j]? = _
     rw [exchangeVars_l2v m5.tbl x (x + 1) vx vy hxy hvx5 hvy5, hl5]
